@@ -44,7 +44,7 @@ RULE = ("histories of runs of the real output pipeline in a scratch directory: r
         "the template) x (delete any subset of the csv/tex/pdf/png files). 1 plot, default "
         "settings: ALL histories of 3 runs (64x64 step pairs) in both tiers, thorough adds "
         "the 4-run histories whose first step is one of 16 representatives (16x64x64); all "
-        "histories of 2 (quick) / 3 (thorough) runs for each of 11 settings (Write "
+        "histories of 2 (quick) / 3 (thorough) runs for each of 12 settings (Write "
         "existing_unchanged / overwrite / two differently configured Write instances, "
         "LaTeXToPDF overwrite, PDFToPNG overwrite, dirname, reused pipeline objects, "
         "Write's default file name, bystander values + verbose, default pdflatex command); "
@@ -137,6 +137,7 @@ SETTINGS = [
     ("ow", settings(w1="overwrite", w2="overwrite")),
     ("w2ow", settings(w2="overwrite")),
     ("w1eu", settings(w1="existing_unchanged")),
+    ("w2eu", settings(w2="existing_unchanged")),
     ("l2pow", settings(l2p_over=True)),
     ("p2pow", settings(p2p_over=True)),
     ("dir", settings(dirname=True)),
@@ -145,7 +146,7 @@ SETTINGS = [
     ("extra", settings(extra=True, verbose=True)),  # bystander values, verbose messages
     ("defcmd", settings(defcmd=True, dirname=True)),  # LaTeXToPDF's default pdflatex command
 ]
-GROUP_OK = 7      # SETTINGS[:GROUP_OK] are meaningful for the group pipelines too
+GROUP_OK = 8      # SETTINGS[:GROUP_OK] are meaningful for the group pipelines too
 
 
 # ------------------------------------------------------------------ step space
@@ -871,8 +872,8 @@ def check_run(w, obs, history, step, pre, results, events, stublog, exc, first):
         kinds = sorted(set(os.path.splitext(p)[1][1:] for p in written))
         obs.check(not written, "unchanged-run-wrote-file:" + "+".join(kinds),
                   "run with unchanged inputs opened for writing: %r; %s" % (written, hist_txt))
-        tools = sorted(set(l[0] for l in stublog) | set(os.path.basename(a[0]) for a in popens
-                                                        if a))
+        tools = sorted(set(l[0] for l in stublog)) or sorted(
+            set(os.path.basename(a[0]) for a in popens if a))
         obs.check(not stublog and not popens,
                   "unchanged-run-launched-converter:" + "+".join(tools),
                   "run with unchanged inputs launched %r; %s" % (stublog or popens, hist_txt))
@@ -1054,8 +1055,10 @@ def run_mkfn(r, obs):
                       "affix %r occurs %d time(s) in file name %r, expected %d (%r); %s"
                       % (affix_bad[0], affix_bad[1], fn, affix_bad[2], mfn, desc))
         else:
-            obs.check(got == model, "makefilename-model-differs:" + "+".join(
-                sorted(set(k for k, _, _ in chain))),
+            go, mo = got.get("output", {}), model.get("output", {})
+            differ = sorted(k for k in set(go) | set(mo) if go.get(k, ABSENT) != mo.get(k, ABSENT))
+            obs.check(got == model, "makefilename-model-differs:" + (
+                "+".join(differ) if differ else "outside-output"),
                 "context after %s is %r, reference model gives %r" % (desc, got, model))
         if isinstance(value, tuple):
             obs.check(value[0] == 7, "makefilename-data-changed", "data part changed; " + desc)
